@@ -284,6 +284,13 @@ func genC08(cw *caseWriter, seed uint64, tier string) {
 		[]byte("{\"a\":1}"),
 	}
 	procs := []string{"default", "tolerant", "failat:1"}
+	if tier == "thorough" {
+		// 40 more streams drawn from the line alphabet of C07 (malformed lines, trailing content, blank lines,
+		// CRLF, missing final newline), each with the fault at EVERY offset and write index
+		for k := 0; k < 40; k++ {
+			streams = append(streams, randStreamBytes(r, 5))
+		}
+	}
 	for _, data := range streams {
 		// reader failing at every byte offset k, as (0, err) after k bytes and as (n>0, err) with the last chunk
 		for k := 0; k <= len(data); k++ {
